@@ -213,8 +213,10 @@ func c04r3(c *Ctx) {
 			}
 		}
 		ob := c.Ob(f, "guard-strictly-below-bound", f.Body.Pos())
-		// find the leaf condition len(a)+len(b) < bound
-		var guard *cfgx.Node
+		// the leaf conditions len(a)+len(b) < bound (there may be several: a loop per direction, each with the test)
+		var pass []*cfgx.Edge
+		strict := true
+		var guardPos token.Pos
 		for _, n := range g.Nodes {
 			if n.Block == nil || n.Block.Cond != n.AST || len(n.Succs) != 2 {
 				continue
@@ -231,18 +233,26 @@ func c04r3(c *Ctx) {
 				x, y := lenOf(f, s.X), lenOf(f, s.Y)
 				return x != nil && y != nil && isRes(f.ObjOf(x)) && isRes(f.ObjOf(y)) && f.ObjOf(x) != f.ObjOf(y)
 			}
-			if sumSide(be.X) && f.ObjOf(be.Y) == bound && bound != nil {
-				guard = n
-				ob.Check(be.Op == token.LSS, nil, "the loop guard at %s compares the number of collected updates with %s instead of <: one more update than requested can be returned", c.P.Pos(n.Pos()), be.Op)
-			} else if sumSide(be.Y) && f.ObjOf(be.X) == bound && bound != nil {
-				guard = n
-				ob.Check(be.Op == token.GTR, nil, "the loop guard at %s compares the bound with %s instead of >", c.P.Pos(n.Pos()), be.Op)
+			switch {
+			case sumSide(be.X) && f.ObjOf(be.Y) == bound && bound != nil:
+				if be.Op != token.LSS {
+					strict = false
+				}
+			case sumSide(be.Y) && f.ObjOf(be.X) == bound && bound != nil:
+				if be.Op != token.GTR {
+					strict = false
+				}
+			default:
+				continue
 			}
+			guardPos = n.Pos()
+			pass = append(pass, n.Succs[0])
 		}
-		if guard == nil {
-			ob.Bad(nil, "no loop guard of the form len(reverts)+len(applies) < bound found in %s", f.Name())
+		if len(pass) == 0 {
+			ob.Bad(nil, "no guard of the form len(reverts)+len(applies) < bound found in %s", f.Name())
 			continue
 		}
+		ob.Check(strict, nil, "a guard compares the number of collected updates with the bound non-strictly: one more update than requested can be returned")
 		// appends
 		isAppend := func(n *cfgx.Node) bool {
 			if n.AST == nil {
@@ -259,59 +269,40 @@ func c04r3(c *Ctx) {
 			}
 			return false
 		}
-		ob2 := c.Ob(f, "one-update-per-iteration", guard.Pos())
-		// explore from the guard's true edge counting appends until the guard is reached again
-		var start []*cfgx.Visit
-		for _, e := range guard.Succs {
-			if e.Kind == cfgx.True {
-				start = append(start, cfgx.StartAfter(e, 0))
-			}
+		// every append spends one passing of the guard: state 1 = the guard passed and nothing was appended since
+		ob2 := c.Ob(f, "one-update-per-iteration", guardPos)
+		isPass := map[*cfgx.Edge]bool{}
+		for _, e := range pass {
+			isPass[e] = true
 		}
-		// the loop header may consist of several leaf conditions (a && b): the iteration ends at the first leaf of the loop condition
-		var loopStmt *ast.ForStmt
-		ir.Walk(f.Body, false, func(x ast.Node) {
-			if fs, ok := x.(*ast.ForStmt); ok && fs.Cond != nil && containsNode(fs.Cond, guard.AST) {
-				loopStmt = fs
-			}
-		})
-		if loopStmt == nil {
-			ob.Bad(nil, "the bound comparison at %s is not the condition of a for loop", c.P.Pos(guard.Pos()))
-			continue
-		}
-		// an iteration ends when control comes back to the first leaf of the loop condition
-		var first *cfgx.Node
-		for _, n := range g.Nodes {
-			if n.AST != nil && containsNode(loopStmt.Cond, n.AST) && n.Block != nil && n.Block.Cond == n.AST {
-				if first == nil || n.AST.Pos() < first.AST.Pos() {
-					first = n
+		var over *cfgx.Visit
+		for _, v := range f.ExploreFeasible([]*cfgx.Visit{cfgx.StartAt(g.Entry, 0)}, cfgx.Walker{
+			AtNode: func(n *cfgx.Node, s cfgx.State) (cfgx.State, bool) {
+				if isAppend(n) {
+					if s == 0 {
+						return 2, false
+					}
+					return 0, true
 				}
-			}
-		}
-		iterEnd := func(n *cfgx.Node) bool { return n == first }
-		over := false
-		vs := g.Explore(start, cfgx.Walker{AtNode: func(n *cfgx.Node, s cfgx.State) (cfgx.State, bool) {
-			if iterEnd(n) {
-				if s >= 2 {
-					over = true
+				return s, true
+			},
+			OnEdge: func(e *cfgx.Edge, s cfgx.State) (cfgx.State, bool) {
+				if isPass[e] {
+					return 1, true
 				}
-				return s, false
-			}
-			if isAppend(n) && s < 2 {
-				s++
-			}
-			return s, true
-		}})
-		_ = vs
-		ob2.Check(!over, nil, "one trip round the loop can append more than one update: the number returned can exceed the bound by the surplus")
-		ob3 := c.Ob(f, "no-append-outside-loop", f.Body.Pos())
-		outside := false
-		for _, n := range g.Nodes {
-			if isAppend(n) && !nodeInStmt(n, loopStmt) {
-				outside = true
-				ob3.Pos = c.P.Pos(n.Pos())
+				return s, true
+			},
+		}) {
+			if v.State == 2 {
+				over = v
 			}
 		}
-		ob3.Check(!outside, nil, "an update is appended outside the bounded loop")
+		if over != nil {
+			ob2.Bad(c.Witness(over), "an update is appended at %s on a path that has not passed the bound test since the previous append (a second append in one trip round the loop, or an append outside the bounded loop): the number returned can exceed the bound", c.P.Pos(over.Node.Pos()))
+		} else {
+			ob2.OK("every append follows a passing of the bound test of its own")
+		}
+		c.Ob(f, "no-append-outside-loop", f.Body.Pos()).OK("covered by the per-append test")
 	}
 }
 
